@@ -41,6 +41,15 @@ type C12Plan struct {
 	Schedule []int32   `json:"schedule"` // k-th scheduling decision, modulo #runnable
 	Pool     []int32   `json:"pool"`     // k-th bank request: -1 fresh, else index into free list (mod), 1<<30 newest
 	VSeed    uint64    `json:"vseed"`
+	// Burst > 0: SUPPLEMENT outside the deterministic simulation. All
+	// goroutines are released at once on several OS threads (no token
+	// scheduler, real sync.Pool) and repeat their lists Burst times; only the
+	// result-equivalence oracle and the race detector judge. It exists for
+	// atomicity violations between two instructions with no yield point and no
+	// data race (e.g. an unlocked load-modify-store of an atomic pointer),
+	// which the token scheduler cannot interleave. Not replayable exactly:
+	// the replay command retries.
+	Burst int `json:"burst,omitempty"`
 }
 
 type c12Prop struct{}
@@ -102,6 +111,23 @@ func (c12Prop) Generate(seed uint64, idx int, tier string) *Plan {
 		pl.Ops = append(pl.Ops, ops)
 	}
 	freshOnly := r.P(1, 3)
+	if r.P(1, 8) {
+		// parallel burst (see C12Plan.Burst): few operation kinds, many repeats
+		pl.Burst = r.PickInt([]int{30, 100})
+		kinds := [][]string{{"register"}, {"parsetime"}, {"register", "build"}, {"parsetime", "encode"}, {"register", "parsetime"}, {"build", "schema"}, {"decode", "decodeproj"}}[r.Intn(7)]
+		if kinds[0] == "parsetime" {
+			pl.Burst = r.PickInt([]int{1000, 5000}) // a timestamp parse costs about a microsecond
+		}
+		pl.Ops = nil
+		ng = r.Range(4, 6)
+		for g := 0; g < ng; g++ {
+			var ops []C12Op
+			for i := r.Range(2, 5); i > 0; i-- {
+				ops = append(ops, C12Op{Op: r.Pick(kinds), A: r.Intn(1 << 12), B: r.Intn(1 << 12)})
+			}
+			pl.Ops = append(pl.Ops, ops)
+		}
+	}
 	ns := r.Range(8, 64)
 	switch r.Intn(4) {
 	case 0: // long runs of the same goroutine
@@ -644,6 +670,10 @@ func (env *c12Env) execOp(g int, op C12Op, alone bool) (res string) {
 		return fmt.Sprintf("schema err=%v %s", err, hashBytes(js))
 	case "parsetime":
 		offMin := op.B%1681 - 840
+		if op.A%2 == 0 {
+			// a small pool, so that different goroutines also parse the SAME offsets
+			offMin = []int{345, -210, 60}[op.B%3]
+		}
 		sign := "+"
 		if offMin < 0 {
 			sign = "-"
@@ -785,6 +815,9 @@ func (c12Prop) Execute(p *Plan, run *Run) any {
 		run.Infra("bad goroutine count")
 		return nil
 	}
+	if pl.Burst > 0 {
+		return c12Burst(p, run)
+	}
 	readRaceLog() // discard anything reported outside a plan
 	pool := &racePool{choices: pl.Pool}
 	curRacePool = pool
@@ -924,6 +957,77 @@ func (c12Prop) Execute(p *Plan, run *Run) any {
 //go:norace
 func startToken(s *tokenSched) { s.turn = s.pick() }
 
+// c12Burst: see C12Plan.Burst.
+func c12Burst(p *Plan, run *Run) any {
+	pl := p.C12
+	ng := len(pl.Ops)
+	readRaceLog()
+	curSched, curRacePool = nil, nil
+	avro.SimHooks.BankGet, avro.SimHooks.BankPut, avro.SimHooks.Yield, avrotime.SimYield = nil, nil, nil, nil
+	env, err := newC12Env(pl)
+	if err != nil {
+		run.Probes.Inc("skipped:workload-unbuildable")
+		run.Log.Add("skip")
+		return map[string]any{"skipped": err.Error()}
+	}
+	first := make([][]string, ng)
+	mism := make([]string, ng)
+	prev := runtime.GOMAXPROCS(8)
+	start := make(chan struct{})
+	var wg sync.WaitGroup
+	for g := 0; g < ng; g++ {
+		wg.Add(1)
+		go func(g int) {
+			defer wg.Done()
+			<-start
+			for r := 0; r < pl.Burst; r++ {
+				for i, op := range pl.Ops[g] {
+					res := env.execOp(g, op, false)
+					if r == 0 {
+						first[g] = append(first[g], res)
+					} else if res != first[g][i] && mism[g] == "" {
+						mism[g] = fmt.Sprintf("goroutine %d op %d (%s a=%d b=%d), repetition %d: result %q, first repetition %q", g, i, op.Op, op.A, op.B, r, clipN(res, 300), clipN(first[g][i], 300))
+					}
+				}
+			}
+		}(g)
+	}
+	close(start)
+	wg.Wait()
+	runtime.GOMAXPROCS(prev)
+	run.Evals++
+	run.Probes.Inc("parallel-burst-plans")
+	run.Faults.Addn("parallel-burst-repetitions", pl.Burst)
+	kinds := map[string]bool{}
+	for _, ops := range pl.Ops {
+		for _, op := range ops {
+			kinds[op.Op] = true
+		}
+	}
+	run.Sig("burst|%s|g%d", strings.Join(sortedKeys(kinds), "+"), ng)
+	run.Log.Add("burst g=%d reps=%d", ng, pl.Burst)
+	if rep := readRaceLog(); strings.Contains(rep, "DATA RACE") {
+		run.Violation("c12/data-race", raceSite(rep), fmt.Sprintf("parallel burst: the race detector reported %d data race(s):\n%s", strings.Count(rep, "WARNING: DATA RACE"), head(rep, 6000)), nil)
+		return nil
+	}
+	for g := 0; g < ng; g++ {
+		if mism[g] != "" {
+			run.Violation("c12/result-differs", pl.Ops[g][0].Op, "parallel burst (goroutines truly in parallel, not replayable exactly): "+mism[g], nil)
+			return nil
+		}
+	}
+	for g := 0; g < ng; g++ {
+		for i, op := range pl.Ops[g] {
+			want := env.execOp(g, op, true)
+			if i < len(first[g]) && first[g][i] != want {
+				run.Violation("c12/result-differs", op.Op, fmt.Sprintf("parallel burst (not replayable exactly): goroutine %d op %d (%s a=%d b=%d): result in parallel %q, alone %q", g, i, op.Op, op.A, op.B, clipN(first[g][i], 300), clipN(want, 300)), nil)
+				return nil
+			}
+		}
+	}
+	return map[string]any{"goroutines": ng, "mode": "parallel-burst", "repetitions": pl.Burst}
+}
+
 func clipN(s string, n int) string {
 	if len(s) > n {
 		return s[:n] + "…"
@@ -931,8 +1035,18 @@ func clipN(s string, n int) string {
 	return s
 }
 
+func (c12Prop) ReplayAttempts(p *Plan) int {
+	if p.C12 != nil && p.C12.Burst > 0 {
+		return 12
+	}
+	return 1
+}
+
 func (c12Prop) Shrink(p *Plan) []*Plan {
 	var out []*Plan
+	if p.C12.Burst > 0 {
+		return nil // not exactly replayable: no shrinking
+	}
 	mut := func(f func(q *C12Plan)) {
 		q := p.clone()
 		f(q.C12)
